@@ -126,6 +126,8 @@ def run(ctx):
                 ctx.ob("S3", STREAM, cls, f"strobe_all set depends on {at}", ok,
                        "" if ok else f"word completion guard {B.show(G)} ignores {at} (partial word is not flushed on an "
                                      f"early last)", a.line)
+        from ..rules_stream import s3_word_flags
+        s3_word_flags(ctx, "S3", fx, cls)
         vt = fx.find(domain="sync", target="self.source.valid_token_count")
         if cls == "_UpConverter":
             ok = bool(vt) and all(a.v in ("demux + 1", "1 + demux") for a in vt)
